@@ -76,7 +76,9 @@ func run(c Case) (o hx.Outcome) {
 var spec = &hx.Spec[Case]{
 	ID:    "C14",
 	Level: "fault_enumeration",
-	Rule: "cases = (matrix) client/server/upstream compression x skip-verify per hop x writable x history of get/has/put/put-invalid over chunks planted as present/missing/other-format-only/corrupt; " +
+	Rule: "cases = (matrix) client/server/upstream compression x skip-verify per hop x writable x history of get/has/put/put-invalid over chunks planted as present/missing/other-format-only/corrupt, " +
+		"chunk lengths 1 B..100 kB (1 MB thorough) and, in about 1 matrix case of 25, chunks whose transfer form is around or above the default maximum chunk size (256 KiB-40..256 KiB+8, ..300 KiB, ..1 MiB; incompressible and compressible), " +
+		"plus fixed cases with raw and compressed transfer lengths 256 KiB-1, 256 KiB, 256 KiB+1, 300 KiB, 1 MiB x write verification on/off x upstream format; " +
 		"(index) history of get/reader/head/put over index names planted as present/missing/garbage; " +
 		"(script) method x ErrorRetry 0..4 x per-attempt server responses (200, 404, 400/401/403, 500/502/503, connection close/RST, truncated body) of length <= 6, all scripts of length <= 4 x retry 0..3 enumerated for GetChunk and HasChunk; " +
 		"(proto) 1..3 casync protocol sessions over pipes on one store with present/missing/corrupt chunks, repeated IDs, large-then-smaller-or-equal reply orders and a closed or cut connection; " +
@@ -91,6 +93,7 @@ var spec = &hx.Spec[Case]{
 		"upstream back door reads/writes chunk files with klauspost zstd directly and chunk IDs with crypto/sha512 directly; index bytes by the independent caibx codec in internal/ref",
 		"casync protocol: a server that ends the session after answering MISSING or after a store failure is accepted (DESIGN section 6, judged outside the statement); the harness then closes the server's pipe ends like a process exit would",
 		"zero-length chunks are not generated (no chunker produces them)",
+		"chunk size is not bounded by the statement ('all chunks'): chunks of up to 1 MiB (indexes made with a larger maximum than the default 256 KiB) and transfer forms larger than the chunk (zstd framing of incompressible data) are valid uploads and downloads",
 		"a chunk handed out by a transport stays valid for its holder while the transport is used further (Store.GetChunk has no lifetime restriction: chunk servers, caches and the assembler all keep chunks while other requests run on the same store); held chunks are read, never modified, by the check",
 	},
 	Required: []string{
@@ -99,6 +102,10 @@ var spec = &hx.Spec[Case]{
 		"matrix:writable", "matrix:readonly", "matrix:op:get", "matrix:op:has", "matrix:op:put", "matrix:op:putbad",
 		"matrix:state:present", "matrix:state:missing", "matrix:state:other-format", "matrix:state:corrupt",
 		"matrix:read-after-put", "matrix:recompress", "matrix:passthrough",
+		"matrix:put:body>256KiB:compressed", "matrix:put:body>256KiB:uncompressed", "matrix:put:body>256KiB:verify-write", "matrix:put:body>256KiB:skip-verify-write",
+		"matrix:get:body>256KiB:compressed", "matrix:get:body>256KiB:uncompressed",
+		"matrix:put:body=256KiB-1:compressed", "matrix:put:body=256KiB:compressed", "matrix:put:body=256KiB+1:compressed",
+		"matrix:put:body=256KiB-1:uncompressed", "matrix:put:body=256KiB:uncompressed", "matrix:put:body=256KiB+1:uncompressed",
 		"index:get:present", "index:get:missing", "index:get:garbage", "index:head:present", "index:head:missing", "index:put:writable", "index:put:readonly", "index:read-after-put",
 		"script:invisible-run", "script:exhausted", "script:f==retry", "script:terminal:200", "script:terminal:404", "script:terminal:4xx",
 		"script:kind:reset", "script:kind:short", "script:kind:5xx",
